@@ -521,6 +521,12 @@ func C07(c *core.Ctx) {
 // or contain line breaks.
 func quotedStringTexts() []string {
 	var texts []string
+	// annotations in front of every kind of directive (they belong to transactions)
+	for _, ann := range []string{"@performance(CHF)\n", "@performance()\n", "@accrue monthly 2020-01-01 2020-03-31 Assets:A\n", "@accrue daily 2020-01-01 2020-01-03 Assets:A\n@performance(USD,CHF)\n"} {
+		for _, d := range []string{"2020-01-01 open Assets:A\n", "2020-01-02 price USD 0.9 CHF\n", "2020-01-03 balance Assets:A 0 CHF\n", "2020-01-03 balance\nAssets:A 0 CHF\nAssets:A 0 USD\n\n", "2020-01-04 close Assets:A\n", "include \"x.knut\"\n", "2020-01-02 \"t\"\nAssets:A Assets:B 1 CHF\n"} {
+			texts = append(texts, ann+d, "# c\n\n"+ann+d+"\n2020-02-01 open Assets:B\n")
+		}
+	}
 	for _, q := range []string{"", " ", "  ", "\t", " \t ", " x", "x ", " x ", "\n", " \n ", "é", " é "} {
 		texts = append(texts,
 			"2023-04-03 \""+q+"\"\nAssets:A Assets:B 1 CHF\n",
